@@ -1251,4 +1251,67 @@ namespace vh
     bool conv = BE::IsConverged(bp, E, Yn, atol, rtol);
     return "norm e=" + hexd(e) + " conv=" + (conv ? "1" : "0");
   }
+
+  // ---------------------------------------------------------------- flat-storage dumps (whole AsVector(), padding included)
+  template<std::size_t L, bool CSC>
+  std::string KernelCfg<L, CSC>::jacobianflat(Tok& t, std::size_t ncell, std::size_t ns)
+  {
+    using DM = typename DenseOf<L>::type;
+    using SM = SparseOf<L, CSC>;
+    auto perm = t.nats(ns);
+    auto procs = mech(t);
+    std::size_t nrx = procs.size();
+    auto k = t.flts(ncell * nrx);
+    auto y = t.flts(ncell * ns);
+    micm::ProcessSet ps(procs, nameMap(perm));
+    auto nz = ps.NonZeroJacobianElements();
+    SM J = micm::BuildJacobian<SM>(nz, ncell, ns);
+    ps.SetJacobianFlatIds(J);
+    DM K = denseFrom<DM>(ncell, nrx, k), Y = denseFrom<DM>(ncell, ns, y);
+    J.Fill(0.0);
+    ps.SubtractJacobianTerms<DM, SM>(K, Y, J);
+    Out o;
+    o.os << "jacobianflat";
+    o.key("J");
+    for (auto v : J.AsVector())
+      o.d(v);
+    return o.os.str();
+  }
+
+  template<std::size_t L, bool CSC>
+  std::string KernelCfg<L, CSC>::luflat(Tok& t, std::size_t n, std::size_t blocks)
+  {
+    using DM = typename DenseOf<L>::type;
+    using SM = SparseOf<L, CSC>;
+    using LU = micm::LuDecompositionDoolittle;
+    std::size_t ne = t.nat();
+    auto es = readPairs(t, ne);
+    auto avals = t.flts(blocks * es.size());
+    double garbage = t.flt();
+    auto b = t.flts(blocks * n);
+    SM A = makeSparse<SM>(n, blocks, es, 0.0);
+    {
+      std::size_t i = 0;
+      for (std::size_t bl = 0; bl < blocks; ++bl)
+        for (auto& e : es)
+          A[bl][e.first][e.second] = avals[i++];
+    }
+    micm::LinearSolver<SM, LU> ls(A, garbage);
+    auto lu = LU::template GetLUMatrices<SM, SM, SM>(A, garbage);
+    ls.Factor(A, lu.first, lu.second);
+    DM x = denseFrom<DM>(blocks, n, b);
+    ls.template Solve<DM>(x, lu.first, lu.second);
+    Out o;
+    o.os << "luflat";
+    o.key("L");
+    for (auto v : lu.first.AsVector())
+      o.d(v);
+    o.key("U");
+    for (auto v : lu.second.AsVector())
+      o.d(v);
+    o.key("x");
+    for (auto v : x.AsVector())
+      o.d(v);
+    return o.os.str();
+  }
 }  // namespace vh
